@@ -8,4 +8,13 @@ PROPS = {
         "rule": "roundtrip of sampled ids (3/4 in the 10^7 id space, 1/4 any u32) + all border ids; parse of structured strings (valid renderings with other 3-byte prefixes, overflow region, signs, leading zeros) and random strings over an alphabet with 1-4 byte chars at every offset; distinct = distinct op lists; every case non-trivial",
         "assumptions": ["Rust u32::from_str grammar: optional '+', decimal digits, overflow is an error", "Display {:07} pads with zeros to at least 7 digits"],
     },
+    "C13": {
+        "rule": "ontologies of 3..35 terms loaded through the binary format (v3, 1/10 v2) with extra children of HP:1 (modifier roots) and HP:118 (categories), obsolete flags and replacements (resolving, colliding with other terms, not resolving, none) and gene/omim/orpha records; ALL subsets for ontologies of <= 5 terms, else 20 (thorough 50) subsets: empty, full, singleton, all obsolete, term + all its ancestors, replaced terms + their replacements, terms around modifier roots, random densities, constructor input shuffled with duplicates; per subset every query (len/is_empty/contains over a universe, iter, get(i), gene/omim/orpha unions, categories, information_content) and every transformation followed by the resolving views, random chains of 2-5 transformations, and the harness oracle (`oracle set`: recomputation from parent_ids BFS, flags, replacement_id, modifier/category roots, per-term record ids; in-place = copy; receiver unchanged); 1/4 of the cases add a set with a member that is not a term (every looking-up operation must panic); distinct = distinct op lists; non-trivial = some subset holds an ancestor together with a descendant and the ontology has an obsolete or replaced term",
+        "assumptions": [
+            "a set is observed through len/is_empty/contains over a universe (ontology ids, all replacement ids, the constructor ids, border ids) because iter()/get() resolve ids and panic on a replacement id that is not a term; the model prints the id vector",
+            "HashSet/HashMap results (record id unions, category counts) are compared sorted by id",
+            "'descends from' is read through the cached all_parents of the members (C01 ties that cache to the transitive closure)",
+        ],
+        "partial": "C13_ic states the result as the (count, total) pairs passed to C03's icCalc plus the definition of icValue for every Num instance; the real-number identity -ln(|union|/N) >= 0 is C03's theorem, not restated here. The panic behaviour for sets with a non-member is modelled and compared (short-circuit of child_nodes included) but only its absence under `Resolves` is a theorem.",
+    },
 }
